@@ -67,7 +67,17 @@ type T struct {
 	counters   map[string]int64
 	maxes      map[string]int64
 	extra      []Violation
+	noConfirm  bool
+	incomplete string
 }
+
+// Incomplete marks the run as not exhaustive (a cap inside an engine was hit); what was
+// fully covered below the cap must be reported through counters by the harness.
+func (t *T) Incomplete(reason string) { t.incomplete = reason }
+
+// NoConfirm disables the confirmation re-runs for this case (used when a
+// failure leaves the process in a state where re-running is pointless, e.g. a hung body).
+func (t *T) NoConfirm() { t.noConfirm = true }
 
 // Failf records a violation of the property for this case.
 func (t *T) Failf(format string, a ...any) {
@@ -416,6 +426,12 @@ func (r *runner) doCase(group, key string, run func(t *T)) {
 	}
 	r.res.Evaluations++
 	gs.Evaluations++
+	if t.incomplete != "" {
+		r.res.Complete = false
+		if r.res.StoppedAt == "" {
+			r.res.StoppedAt = fmt.Sprintf("%s/%s: %s", group, key, t.incomplete)
+		}
+	}
 	for k, v := range t.counters {
 		r.res.Counters[k] += v
 	}
@@ -462,7 +478,7 @@ func (r *runner) doCase(group, key string, run func(t *T)) {
 		gs.Failed++
 		// confirm: the same case must fail every time.
 		flaky := false
-		for k := 0; k < confirmRuns; k++ {
+		for k := 0; k < confirmRuns && !t.noConfirm; k++ {
 			t2 := r.runOnce(group, key, run)
 			if len(t2.fails) == 0 && len(t2.extra) == 0 {
 				flaky = true
